@@ -151,74 +151,82 @@ def run(ctx, rep):
         if not (ok and not others):
             rep.add("R2", fi.qname, direct[0] if direct else f"raw-mode node.{f[1:]}", f"in raw mode node.{f[1:]} must be exactly the element's {item}, "
                     f"untransformed", fi.loc(direct[0]) if direct else fi.loc(n_if))
-    # literals branch on the clean path: untouched text
-    lit_ok = False
+    # ---- clean path, decided on the guarded-value form of the block (sa/guarded.py): for node.content and node.tail the set
+    # of (atomic path conditions, final value) over all paths, locals and temporaries substituted.  The shape of the control
+    # flow (nested ifs, elif chains, guard clauses, merged tests) does not matter.
+    from ..guarded import guarded_values
     litp = flags[2] if len(flags) > 2 else None
-    for n in ast.walk(ast.Module(body=cln, type_ignores=[])):
-        if isinstance(n, ast.If) and isinstance(n.test, ast.Compare) and isinstance(n.test.ops[0], ast.In) and isinstance(n.test.comparators[0], ast.Name) \
-                and n.test.comparators[0].id == litp:
-            b = n.body
-            lit_ok = len(b) == 1 and isinstance(b[0], ast.Assign) and isinstance(b[0].value, ast.Attribute) and b[0].value.attr == "text" \
-                and isinstance(b[0].value.value, ast.Name) and b[0].value.value.id == ep and "tag" in (local_src.get(norm(n.test.left), set()) or {"tag"} if isinstance(n.test.left, ast.Name) else set())
-    rep.count("literal-element branch")
-    rep.oblige(("R2", "literals"), lit_ok)
-    if not lit_ok:
-        rep.add("R2", fi.qname, "tag in literals", "listed literal elements must keep their text untouched in clean mode", fi.loc(n_if))
-    # sibling agreement text vs tail (clean path)
-    def policy_block(item, field):
-        for n in ast.walk(ast.Module(body=cln, type_ignores=[])):
-            if isinstance(n, ast.If) and isinstance(n.test, ast.Compare) and isinstance(n.test.ops[0], ast.IsNot) \
-                    and isinstance(n.test.left, ast.Attribute) and n.test.left.attr == item and isinstance(n.test.left.value, ast.Name) and n.test.left.value.id == ep:
-                body = n.body
-                # skip the literals wrapper for text
-                if len(body) == 1 and isinstance(body[0], ast.If) and isinstance(body[0].test, ast.Compare) and isinstance(body[0].test.ops[0], ast.In):
-                    body = body[0].orelse
-                return body
+
+    def place_key(n):
+        if isinstance(n, ast.Attribute) and isinstance(n.value, ast.Name) and n.value.id == nodevar and nm.canon(n.attr):
+            return ("F", nm.canon(n.attr))
         return None
 
-    class Ren(ast.NodeTransformer):
-        def __init__(self, item, field):
-            self.item, self.field = item, field
+    def regex_of(call):
+        f_ = call.func
+        if not isinstance(f_, ast.Attribute) or f_.attr not in ("search", "match", "fullmatch"):
+            return None
+        r_ = prog.resolve_name_expr(fi.module, f_.value) if isinstance(f_.value, (ast.Name, ast.Attribute)) else None
+        if r_ and r_[0] == "external" and r_[1] == "re" and len(call.args) >= 2:
+            pat = prog.const(fi.module, call.args[0])
+            return (pat, f_.attr, call.args[1]) if isinstance(pat, str) else None
+        if r_ and r_[0] == "const" and call.args:
+            c_ = r_[1].consts.get(r_[2])
+            if isinstance(c_, ast.Call) and isinstance(c_.func, ast.Attribute) and c_.func.attr == "compile" and c_.args:
+                pat = prog.const(r_[1], c_.args[0])
+                return (pat, f_.attr, call.args[0]) if isinstance(pat, str) else None
+        return None
 
-        def visit_Attribute(self, n):
-            self.generic_visit(n)
-            if isinstance(n.value, ast.Name) and n.value.id == ep and n.attr == self.item:
-                return ast.Name(id="ITEM", ctx=n.ctx)
-            if isinstance(n.value, ast.Name) and n.value.id == nodevar and nm.canon(n.attr) == self.field:
-                return ast.Name(id="FIELD", ctx=n.ctx)
-            return n
-    bt, bl = policy_block("text", "_content"), policy_block("tail", "_tail")
-    shared = [h for (h, kinds) in helpers.values() if kinds == {"text", "tail"}]
-    if shared and (bt is None or bl is None or True):
-        # both text and tail go through one helper with the same remaining arguments
-        calls_t = [n for n in ast.walk(ast.Module(body=cln, type_ignores=[])) if isinstance(n, ast.Call) and n.args and isinstance(n.args[0], ast.Attribute)
-                   and isinstance(n.args[0].value, ast.Name) and n.args[0].value.id == ep and n.args[0].attr in ("text", "tail")
-                   and any(tg.func is shared[0] for tg in w.resolve_call(w.types(fi), n))]
-        rest = {tuple(norm(a) for a in c.args[1:]) + tuple(sorted((k.arg, norm(k.value)) for k in c.keywords)) for c in calls_t}
-        if len(calls_t) >= 2 and len(rest) == 1:
-            bt = bl = []
-    rep.count("whitespace-policy blocks", int(bt is not None) + int(bl is not None))
-    if bt is None or bl is None:
+    def relevant(field):
+        """top-level statements of the clean block that matter for node.<field> (stores to it, and locals it reads)"""
+        keep, need = [], set()
+        for s_ in reversed(cln):
+            stores_f = any(isinstance(x, ast.Attribute) and isinstance(x.ctx, ast.Store) and place_key(x) == ("F", field) for x in ast.walk(s_))
+            binds = {x.id for x in ast.walk(s_) if isinstance(x, ast.Name) and isinstance(x.ctx, ast.Store)}
+            if stores_f or (binds & need):
+                keep.append(s_)
+                need |= {x.id for x in ast.walk(s_) if isinstance(x, ast.Name) and isinstance(x.ctx, ast.Load)}
+        return list(reversed(keep))
+
+    def canon_paths(field, item):
+        try:
+            paths = guarded_values(relevant(field), place_key, ("F", field), regex_of=regex_of)
+        except AnalysisError as ex:
+            raise AnalysisError(f"{fi.loc(n_if)}: clean-mode block of node.{field[1:]}: {ex}")
+        out = []
+        src = f"{ep}.{item}"
+        for conds, val in paths:
+            cs = tuple((a.replace(src, "ITEM"), p) for a, p in conds)
+            out.append((cs, val.replace(src, "ITEM") if val is not None else None))
+        return out
+    tp, lp_ = canon_paths("_content", "text"), canon_paths("_tail", "tail")
+    rep.count("whitespace-policy blocks", int(bool(tp)) + int(bool(lp_)))
+    rep.count("clean-mode paths", len(tp) + len(lp_))
+    assigned_t = any(v is not None for _c, v in tp)
+    assigned_l = any(v is not None for _c, v in lp_)
+    if not (assigned_t and assigned_l):
         rep.add("R2", fi.qname, "clean-mode blocks", "clean mode does not treat both text and tail", fi.loc(n_if))
     else:
-        def alpha(m):
-            # locals bound inside the block are compared up to renaming (first-occurrence order)
-            bound = [n.id for n in ast.walk(m) if isinstance(n, ast.Name) and isinstance(n.ctx, ast.Store) and n.id not in ("ITEM", "FIELD")]
-            order = {}
-            for n in ast.walk(m):
-                if isinstance(n, ast.Name) and n.id in bound and n.id not in order:
-                    order[n.id] = f"L{len(order)}"
-            for n in ast.walk(m):
-                if isinstance(n, ast.Name) and n.id in order:
-                    n.id = order[n.id]
-            return m
-        a = ast.dump(alpha(Ren("text", "_content").visit(copy.deepcopy(ast.Module(body=bt, type_ignores=[])))))
-        b = ast.dump(alpha(Ren("tail", "_tail").visit(copy.deepcopy(ast.Module(body=bl, type_ignores=[])))))
-        ok = a == b
-        rep.oblige(("R2", "siblings"), ok)
+        def is_lit(atom):
+            return litp is not None and atom.endswith(f" In {litp}")
+        lit_true = [(c, v) for c, v in tp if any(is_lit(a) and p for a, p in c)]
+        lit_ok = bool(lit_true) and all(v == "ITEM" for _c, v in lit_true)
+        rep.count("literal-element branch")
+        rep.oblige(("R2", "literals"), lit_ok)
+        if not lit_ok:
+            rep.add("R2", fi.qname, "tag in literals", "listed literal elements must keep their text untouched in clean mode", fi.loc(n_if))
+        # tail must not consult the literal list at all (the exemption is about the element's own text)
+        if any(is_lit(a) for c, _v in lp_ for a, _p in c):
+            rep.add("R2", fi.qname, "tail of a literal element", "the tail that follows a listed literal element is text of the parent, not of the literal "
+                    "element: it must be cleaned like any other tail", fi.loc(n_if))
+        rest_t = {(tuple((a, p) for a, p in c if not is_lit(a)), v) for c, v in tp if not any(is_lit(a) and p for a, p in c)}
+        rest_l = {(c, v) for c, v in lp_}
+        ok = rest_t == rest_l
+        rep.oblige(("R2", "siblings"), ok, sample={"paths for text (outside literal elements)": len(rest_t), "paths for tail": len(rest_l), "same guarded values": ok})
         if not ok:
+            diff = sorted(rest_t ^ rest_l, key=repr)[:2]
             rep.add("R2", fi.qname, "clean-mode treatment of tail vs text", "the whitespace policy applied to tail differs from the one applied to "
-                    "text (the two blocks are the same code up to e.text/node.content vs e.tail/node.tail)", fi.loc(n_if))
+                    f"text (guarded-value forms differ, e.g. {diff})", fi.loc(n_if))
     # ---- R6 the "keep blank-only text verbatim" test matches whole strings of spaces / tabs / non-breaking spaces only
     import re as _re
     try:
